@@ -51,6 +51,12 @@ class Obligations:
             return None
         if r == z3.sat:
             m = s.model()
+            # does the counterexample range over results of calls the executor did not look into (over-approximated)? then it may be spurious
+            names = set()
+            for c in constraints:
+                if z3.is_expr(c):
+                    ex._vars_of(c, names)
+            m.opaque_dep = any(n.startswith(("disc-opaque", "opaque-", "ret(", "havoc-", "len-opaque", "len(opaque-iter", "disc(opaque-iter")) for n in names)
             self.failed.append((label, m, info))
             return m
         self.inconclusive.append(label)
@@ -67,6 +73,28 @@ class Obligations:
             if len(r.pc) >= 1:
                 self.nontrivial_paths.add((fname, tuple(c.get_id() if z3.is_expr(c) else c for c in r.pc)))
         return stuck
+
+
+def not_reproduced(out, model, msg):
+    """a solver model that the real macro does not reproduce: a defect of the encoding (exit 2) - unless the model ranges over values the executor over-approximates
+    (results of calls it does not look into), where spurious models are expected and the obligation is simply not established"""
+    if getattr(model, "opaque_dep", False):
+        m = "counterexample over values of calls the executor does not look into, not reproduced natively: " + msg
+        if m not in out.inconclusive:
+            out.inconclusive.append(m)
+    else:
+        out.broken.append("UNCONFIRMED counterexample " + msg)
+
+
+def safe_part(out, f, *args):
+    """one part of an E3 check: a function the executor cannot find / follow any more (renamed, restructured) is INCONCLUSIVE for that part only"""
+    try:
+        return f(*args)
+    except mx.Inconclusive as e:
+        out.inconclusive.append("fn=%s reason=%s" % (getattr(f, "__name__", "?"), e))
+    except Exception as e:  # noqa
+        out.inconclusive.append("fn=%s reason=executor error %s: %s" % (getattr(f, "__name__", "?"), type(e).__name__, str(e)[:200]))
+    return None
 
 
 def coverage_check(ex, obl, label, results, pre=()):
